@@ -499,35 +499,68 @@ class ExprMixin(CallMixin):
     def ev_SetComp(self, e, env, module):
         return self.comprehension(e, env, module)
 
+    def _nested_comprehension(self, e, env, module) -> V:
+        """several `for` clauses: every iterable must be concrete"""
+        out: List[V] = []
+
+        def level(i: int, loc):
+            if i == len(e.generators):
+                out.append(self.eval(e.elt, loc, module))
+                return
+            g = e.generators[i]
+            it = self.resolve_alt(self.eval(g.iter, loc, module))
+            items = self.concrete_items(it)
+            if items is None and isinstance(it, Sym) and it.op == "set":
+                items = list(it.args[0])
+            if items is None and isinstance(it, Const) and isinstance(it.v, str):
+                items = [Const(ch) for ch in it.v]
+            if items is None:
+                raise AnalysisError("nested comprehension over a non-constant iterable unsupported", module.loc(e))
+            for item in items:
+                inner = dict(loc)
+                self.assign(g.target, item, inner, module)
+                if all(self.truthy(self.eval(c, inner, module), c) for c in g.ifs):
+                    level(i + 1, inner)
+
+        level(0, dict(env))
+        r = PyList(out)
+        r.created_in = self._frame_id()  # type: ignore[attr-defined]
+        return r
+
     def ev_DictComp(self, e: ast.DictComp, env, module):
-        if len(e.generators) != 1:
-            raise AnalysisError("nested dict comprehension unsupported", module.loc(e))
-        g = e.generators[0]
-        it = self.resolve_alt(self.eval(g.iter, env, module))
         d = PyDict()
         d.created_in = self._frame_id()  # type: ignore[attr-defined]
 
-        def body(item):
-            loc = dict(env)
-            self.assign(g.target, item, loc, module)
-            for c in g.ifs:
-                if not self.truthy(self.eval(c, loc, module), c):
-                    return
-            k = self.eval(e.key, loc, module)
-            v = self.eval(e.value, loc, module)
-            kk = dict_key(k)
-            if kk is None or self.loop_ctx:
-                if not any(repr(k) == repr(k2) and repr(v) == repr(v2) for k2, v2 in d.opaque_keys):
-                    d.opaque_keys.append((k, v))
-            else:
-                d.items[kk] = v
+        def level(i: int, loc):
+            if i == len(e.generators):
+                k = self.eval(e.key, loc, module)
+                v = self.eval(e.value, loc, module)
+                kk = dict_key(k)
+                if kk is None or self.loop_ctx:
+                    if not any(repr(k) == repr(k2) and repr(v) == repr(v2) for k2, v2 in d.opaque_keys):
+                        d.opaque_keys.append((k, v))
+                else:
+                    d.items[kk] = v
+                return
+            g = e.generators[i]
+            it = self.resolve_alt(self.eval(g.iter, loc, module))
 
-        self.iterate(it, body, module, e)
+            def body(item):
+                inner = dict(loc)
+                self.assign(g.target, item, inner, module)
+                for c in g.ifs:
+                    if not self.truthy(self.eval(c, inner, module), c):
+                        return
+                level(i + 1, inner)
+
+            self.iterate(it, body, module, e)
+
+        level(0, dict(env))
         return d
 
     def comprehension(self, e, env, module) -> V:
         if len(e.generators) != 1:
-            raise AnalysisError("nested comprehension unsupported", module.loc(e))
+            return self._nested_comprehension(e, env, module)
         g = e.generators[0]
         it = self.resolve_alt(self.eval(g.iter, env, module))
         items = self.concrete_items(it)
@@ -626,6 +659,11 @@ class ExprMixin(CallMixin):
             return Sym("p_dyn", idx)
         if isinstance(idx, Sym) and idx.op == "slice":
             lo, hi, st = idx.args
+            # x[a : len(x) - k]  ==  x[a : -k]  for k > 0
+            if isinstance(hi, Sym) and hi.op == "binop" and hi.args[0] == "-" and isinstance(hi.args[2], Const) and isinstance(hi.args[2].v, int) \
+                    and hi.args[2].v > 0 and isinstance(hi.args[1], Sym) and hi.args[1].op == "len" and repr(hi.args[1].args[0]) == repr(base):
+                hi = Const(-hi.args[2].v)
+                idx = Sym("slice", lo, hi, st)
             if isinstance(base, Const) and isinstance(base.v, (str, tuple)) and all(isinstance(x, Const) for x in idx.args):
                 return Const(base.v[slice(lo.v, hi.v, st.v)])
             if isinstance(base, (PyList, PyTuple)) and not getattr(base, "loop_parts", None) and all(isinstance(x, Const) for x in idx.args):
